@@ -40,6 +40,8 @@ func C05(r *core.Run) {
 	optionsEverywhere(r)
 	scalarValueGuard(r)
 	elementKinds(r)
+	labelIndependence(r)
+	refNameKeepsLast(r)
 }
 
 // printerCoverage (R-COVER).
@@ -227,4 +229,139 @@ func elementKinds(r *core.Run) {
 	if len(ks) < 6 {
 		r.Fatal("R-EXH/X3e: expected at least 6 element kinds added by the printer, found %v", ks)
 	}
+}
+
+// labelIndependence (R-COVER/label): whether the printer writes the
+// `optional` / `repeated` keyword may depend only on the accessors that carry
+// that attribute — not on the field's kind or type. proto3 `optional` on a
+// message field is part of the descriptor (proto3_optional), so dropping it by
+// kind changes what re-parses.
+func labelIndependence(r *core.Run) {
+	r.Rule("R-COVER/label", "every place where the printer produces the keyword `optional ` or `repeated ` is conditioned (enclosing if / tagless-switch cases, including the earlier cases it falls past) only by the descriptor accessors that carry the label: IsList, IsMap, HasOptionalKeyword, Cardinality; a condition on Kind(), Message(), Enum() … makes the label of some field kinds unprintable")
+	allowed := map[string]bool{"IsList": true, "IsMap": true, "HasOptionalKeyword": true, "Cardinality": true}
+	n := 0
+	for _, rel := range []string{printRel} {
+		pk := r.P.Pkg(rel)
+		if pk == nil {
+			r.Fatal("anchor: package %s not found", rel)
+			return
+		}
+		info := pk.TypesInfo
+		core.AllFuncDecls(pk, func(fd *ast.FuncDecl) {
+			var stack []ast.Node
+			ast.Inspect(fd.Body, func(nd ast.Node) bool {
+				if nd == nil {
+					stack = stack[:len(stack)-1]
+					return true
+				}
+				stack = append(stack, nd)
+				lit, ok := nd.(*ast.BasicLit)
+				if !ok {
+					return true
+				}
+				s, isStr := core.ConstString(info, lit)
+				if !isStr || (s != "optional " && s != "repeated ") {
+					return true
+				}
+				n++
+				var conds []ast.Expr
+				for i := len(stack) - 2; i >= 0; i-- {
+					switch x := stack[i].(type) {
+					case *ast.IfStmt:
+						if stack[i+1] == ast.Node(x.Body) || (x.Else != nil && stack[i+1] == ast.Node(x.Else)) {
+							conds = append(conds, x.Cond)
+						}
+					case *ast.CaseClause:
+						if i > 1 {
+							if sw, ok := stack[i-2].(*ast.SwitchStmt); ok && sw.Tag == nil {
+								for _, cl := range sw.Body.List {
+									cc := cl.(*ast.CaseClause)
+									conds = append(conds, cc.List...)
+									if cc == x {
+										break
+									}
+								}
+							}
+						}
+					}
+				}
+				var foreign []string
+				for _, c := range conds {
+					ast.Inspect(c, func(x ast.Node) bool {
+						call, ok := x.(*ast.CallExpr)
+						if !ok {
+							return true
+						}
+						sel, ok := call.Fun.(*ast.SelectorExpr)
+						if !ok {
+							return true
+						}
+						if strings.Contains(core.TypeStr(info.TypeOf(sel.X)), "protoreflect.FieldDescriptor") && !allowed[sel.Sel.Name] {
+							foreign = append(foreign, sel.Sel.Name+"()")
+						}
+						return true
+					})
+				}
+				o := r.Add("R-COVER/label", fmt.Sprintf("%s.%s | keyword %q", rel, core.FuncName(fd), s), lit.Pos(), "printing of the field label "+s)
+				if len(foreign) == 0 {
+					o.Auto("conditioned only by the label accessors")
+				} else {
+					o.Fail("the keyword also depends on %s: fields of some kinds lose their label in the printed text", strings.Join(foreign, ", "))
+				}
+				return true
+			})
+		})
+	}
+	r.Floor("R-COVER/label", 2, "places that print optional/repeated")
+	_ = n
+}
+
+// refNameKeepsLast (R-FLOW/refname): the relative type name the printer
+// writes for a field is built by dropping leading path elements shared with
+// the referring message; the last element is the type's own name and must
+// survive, or a message that refers to itself (or to an enclosing message) is
+// printed without a type name.
+func refNameKeepsLast(r *core.Run) {
+	r.Rule("R-FLOW/refname", "in contextRefName every re-slice `p = p[k:]` of the path that is later joined into the printed type name happens where len(p) >= k+1 is known (dominating guard), so at least the type's own name remains")
+	fd, pk := r.P.FuncDecl(printRel, "contextRefName")
+	if fd == nil {
+		r.Fatal("anchor: protoprint.contextRefName not found")
+		return
+	}
+	info := pk.TypesInfo
+	joined := map[string]bool{}
+	ast.Inspect(fd.Body, func(n ast.Node) bool {
+		if c, ok := n.(*ast.CallExpr); ok && core.CalleeName(info, c) == "strings.Join" && len(c.Args) == 2 {
+			joined[core.ExprStr(c.Args[0])] = true
+		}
+		return true
+	})
+	n := 0
+	ast.Inspect(fd.Body, func(nd ast.Node) bool {
+		as, ok := nd.(*ast.AssignStmt)
+		if !ok || len(as.Lhs) != 1 || len(as.Rhs) != 1 {
+			return true
+		}
+		name := core.ExprStr(as.Lhs[0])
+		se, ok := core.Unparen(as.Rhs[0]).(*ast.SliceExpr)
+		if !ok || !joined[name] || core.ExprStr(se.X) != name || se.Low == nil || se.High != nil {
+			return true
+		}
+		k, isC := core.ConstInt(info, se.Low)
+		if !isC {
+			return true
+		}
+		n++
+		o := r.Add("R-FLOW/refname", fmt.Sprintf("%s.contextRefName | %s = %s", printRel, name, core.ExprStr(as.Rhs[0])), as.Pos(), "shortening of the printed type name")
+		f := rules.FactsAt(info, fd.Body, as)
+		if f.MinLen[name] >= int(k)+1 {
+			o.Auto("len(%s) >= %d here: the type's own name is never dropped", name, f.MinLen[name])
+		} else {
+			o.Fail("only len(%s) >= %d is known here: the whole path can be dropped, and a field whose type is its own or an enclosing message is printed without a type name", name, f.MinLen[name])
+		}
+		return true
+	})
+	r.Floor("R-FLOW/refname", 1, "re-slices of the joined path in contextRefName")
+	_ = types.Universe
+	_ = n
 }
